@@ -2,7 +2,11 @@ from . import COMMON_TB, FLOCQ_AXIOMS_NOTE
 
 CONFIG = dict(
     harness="c14",
-    comparisons=[dict(name="model", code=200, kind="eq")],
+    # the formatter is exercised as built without debug assertions, too (the shipped configuration)
+    suites=[
+        dict(suffix="", profile="debug", comparisons=[dict(name="model", code=200, kind="eq")]),
+        dict(suffix="", profile="release", comparisons=[dict(name="model", code=200, kind="eq")]),
+    ],
     trusted_base=COMMON_TB + [FLOCQ_AXIOMS_NOTE],
     assumptions=[
         "a Value that panics inside write is out of scope",
